@@ -157,6 +157,11 @@ structure Req where
   /-- `req.ContentLength` -/
   bodyLen : Nat := 0
 
+/-- `http.readRequest`: "`req.Host = req.URL.Host; if req.Host == "" { req.Host = Host header }`" — with an
+absolute-form target any Host line is ignored (RFC 7230 §5.4) -/
+def serverHost (parsedTarget : URL) (hostHeader : String) : String :=
+  if parsedTarget.host ≠ "" then parsedTarget.host else hostHeader
+
 structure Cfg where
   passHostHeader : Bool
   /-- `HeaderRewriter.TrustForwardHeader` (`NewHeaderRewriter`: true) -/
